@@ -8,6 +8,10 @@ _cache = {}
 
 
 def ctx_of(P, qual):
+    fault = getattr(P, 'expansion_faults', {}).get(qual) or getattr(P, 'expansion_faults', {}).get(qual.split('.<')[0])
+    if fault:
+        from .loader import AnalysisError
+        raise AnalysisError(fault)
     key = (id(P), qual)
     if key not in _cache:
         _cache[key] = FuncCtx(P, qual)
